@@ -156,6 +156,14 @@ func (c *Check) Finish(seed int, writeEvidence bool) int {
 			newViol = append(newViol, o)
 		}
 	}
+	if dp := os.Getenv("XLINT_DUMP_OBS"); dp != "" {
+		if f, err := os.OpenFile(dp, os.O_APPEND|os.O_CREATE|os.O_WRONLY, 0o644); err == nil {
+			for _, o := range c.Obs {
+				fmt.Fprintf(f, "%s\t%s\t%s\t%s\n", c.Prop, o.Status, o.Key(), o.Detail)
+			}
+			f.Close()
+		}
+	}
 	evDir := filepath.Join(verifRoot(), "evidence")
 	violPath := filepath.Join(evDir, c.Prop+".violation.json")
 	os.Remove(violPath)
